@@ -378,6 +378,13 @@ func (t *ncTarget) setCandidate(source TargetSource) (*sdcpb.SetDataResponse, er
 		if strings.Contains(err.Error(), "EOF") {
 			t.Close()
 			go t.reconnect()
+			return nil, err
+		}
+		// the commit failed, discard the pending changes such that they do not get committed by a later transaction
+		err2 := t.driver.Discard()
+		if err2 != nil {
+			// log failed discard
+			log.Errorf("failed with %v while discarding pending changes after error %v", err2, err)
 		}
 		return nil, err
 	}
